@@ -18,6 +18,7 @@ vmod!(rbench, "rbench.rs");
 vmod!(wbench, "wbench.rs");
 vmod!(codec, "codec.rs");
 vmod!(disc, "disc.rs");
+vmod!(ddb, "ddb.rs");
 vmod!(plcdr, "plcdr.rs");
 
 // drivers that need the DDS Security plugins (only in the `security` build: vcheck-sec)
